@@ -372,12 +372,11 @@ converter.register_unstructure_hook({class_name}, _unstructure_{class_name.lower
             if ps.name and self.all_schemas:
                 enum_schema = self.all_schemas.get(ps.name)
                 if enum_schema and enum_schema.enum:
-                    # This is an enum field - convert default value to enum member access
-                    # e.g., "default" -> JobPriorityEnum.DEFAULT
-                    default_str = str(ps.default)
-                    # Convert the value to the enum member name (e.g., "default" -> "DEFAULT")
-                    enum_member_name = default_str.upper().replace("-", "_").replace(" ", "_")
-                    return f"{ps.name}.{enum_member_name}"
+                    # This is an enum field - look the member up by its value,
+                    # e.g., "default" -> JobPriorityEnum("default") (the member names are derived separately)
+                    if isinstance(ps.default, str):
+                        return f"{ps.name}({json.dumps(ps.default, ensure_ascii=False)})"
+                    return f"{ps.name}({ps.default!r})"
 
             if isinstance(ps.default, str):
                 escaped_inner_content = json.dumps(ps.default, ensure_ascii=False)[1:-1]
